@@ -395,8 +395,8 @@ def slerp(p: np.ndarray, q: np.ndarray, t_array: np.ndarray, threshold: float = 
     _assert_iterables(p, 'p')
     _assert_iterables(q, 'q')
     _assert_iterables(t_array, 't_array')
-    p = np.copy(p)
-    q = np.copy(q)
+    p = np.array(p, dtype=float)    # Float copies: an endpoint typed in whole numbers is negated in place below
+    q = np.array(q, dtype=float)
     t_array = np.copy(t_array)
     qdot = np.dot(p, q)
     # Ensure SLERP takes the shortest path
